@@ -337,7 +337,7 @@ def run_C09(run):
     stats = par([lambda m=m, fl=fl: run.build_trace("tr_C09", m, ["-DVT_NO_ASSERT"] + fl) for m, fl in cfgs])
     trace_cov(run, stats)
     gens = [os.path.join(run.dir, m + ".v") for m, _ in cfgs if os.path.exists(os.path.join(run.dir, m + ".v"))]
-    run.prove(gens, [], ["C09/P_C09.v", "C09/P_C09_lookat.v", "C09/P_C09_rigid.v"], "C09/Properties_C09.v")
+    run.prove(gens, ["C09/P_C09.v"], ["C09/P_C09_lookat.v", "C09/P_C09_rigid.v", "C09/P_C09_t2.v"], "C09/Properties_C09.v")
     fails = oracle_sweep(run, "C09", [("rh", []), ("lh", ["-DGLM_FORCE_LEFT_HANDED"]), ("rh_zo", ["-DGLM_FORCE_DEPTH_ZERO_TO_ONE"]), ("lh_zo", ["-DGLM_FORCE_LEFT_HANDED", "-DGLM_FORCE_DEPTH_ZERO_TO_ONE"]), SIMD_AVX2], run.tier)
     run.fails = run.triage(fails)
     run.assumptions = ["real-number semantics of the traced float expressions",
